@@ -107,6 +107,9 @@ class Evaluator:
                     rows.append(Row(r.present, cols, [z3.IntVal(bi)] + r.ord))
             # unify kinds column-wise (UNION ALL is positional)
             for ca in a.cols:
+                for r in rows:
+                    if r.cols[ca].kind not in ("null", "struct") and z3.is_true(r.cols[ca].null):
+                        r.cols[ca] = NULL()     # typed NULL literal: adopts the column's kind
                 kinds = {r.cols[ca].kind for r in rows} - {"null"}
                 if len(kinds) > 1:
                     k = "real" if kinds == {"int", "real"} else None
@@ -255,6 +258,11 @@ class Evaluator:
         # harmonise kinds per column
         for c in names:
             kinds = {r.cols[c].kind for r in rows} - {"null"}
+            if len(kinds) > 1:
+                for r in rows:
+                    if r.cols[c].kind not in ("null", "struct") and z3.is_true(r.cols[c].null):
+                        r.cols[c] = NULL()
+                kinds = {r.cols[c].kind for r in rows} - {"null"}
             if len(kinds) == 1:
                 k = next(iter(kinds))
                 for r in rows:
